@@ -88,8 +88,11 @@ def run(facts, rep):
                     ok = False
                 if ne is False and not (len(calls) == 1 and calls[0] == ('arg2',)):
                     ok = False
+        recognised = bool(shapes) and all(ne_ in (True, False, None) and calls_ and all(all(re.match(r'^(arg[23]|remove\(.*arg[23].*\)|&|\*|clone\(arg[23]\))+$', x.replace(' ', '')) or x in ('arg2', 'arg3') for x in c_) for c_ in calls_) for ne_, calls_ in shapes)
         if (want is not None and shapes == want) or (want is None and ok):
             rep.ok('E7b.K2-pair-helpers', inst, str(sorted(shapes, key=str)))
+        elif not recognised:
+            rep.indet('E7b.K2: %s outside the recognised fragment: %s' % (nm, sorted(shapes, key=str)[:2]))
         else:
             rep.violation('E7b.K2-pair-helpers', inst, '%s performs %s: it must update both (k -> tk) and (tk -> k) unless k == tk' % (nm, sorted(shapes, key=str)), where=b.where())
     # K3
@@ -167,10 +170,21 @@ def run(facts, rep):
                         if a.startswith('add(') and c_.startswith('add(') and re.search(r'arg2\.0\.0\b.*arg2\.1\.0\b', a) and re.search(r'arg2\.0\.1\b.*arg2\.1\.1\b', c_):
                             good = True
         inst = '%s|(k1 + k2) -> (l1 + l2)' % (B + 'connect')
+        crossed = False
+        for k, cb in facts.bodies.items():
+            if k.startswith(b.defp + '::{closure'):
+                for q in SymEx(cb).run():
+                    r = q.ret
+                    if q.end == 'return' and r is not None and r[0] == 'tuple' and len(r[1]) == 2:
+                        a, c_ = sk(r[1][0]), sk(r[1][1])
+                        if a.startswith('add(') and c_.startswith('add(') and re.search(r'arg2\.[01]\.[01]\b.*arg2\.[01]\.[01]\b', a) and re.search(r'arg2\.[01]\.[01]\b.*arg2\.[01]\.[01]\b', c_) and not good:
+                            crossed = True
         if good:
             rep.ok('E7b.K4-connect-keys', inst, 'pairs combined componentwise in the same order')
-        else:
+        elif crossed:
             rep.violation('E7b.K4-connect-keys', inst, 'SymTngBuilder::connect no longer maps k1 + k2 to l1 + l2', where=b.where())
+        else:
+            rep.indet('E7b.K4: key map of SymTngBuilder::connect outside the recognised fragment')
 
 
 def check_doubling(facts, rep):
